@@ -466,7 +466,7 @@ def check_C19(A, R, tier):
             if blk["cleanup"]:
                 continue
             t = blk["term"]["t"]
-            if t["k"] != "call" or blk["term"]["span"].get("exp"):
+            if t["k"] != "call":
                 continue
             gen = (M.callee_of(t) or ("",))[0]
             if gen not in CUTS or len(t["args"]) < 2:
